@@ -11,6 +11,7 @@ CHECKS = {
                           ("harness.matching", "C02_ClearingRound"), ("harness.matching", "C02_Continuous")]},
     "C04": {"harnesses": [("harness.ophistory", "C04_OpHistory"), ("harness.ophistory", "C04_NegativeOps")]},
     "C05": {"harnesses": [("harness.runs", "C05_RunnerBasics")]},
+    "C09": {"harnesses": [("harness.sessions", "C09_SessionRules")]},
     "C10": {"harnesses": [("harness.runs", "C10_RunnerBasics")]},
     "C11": {"harnesses": [("harness.runs", "C11_RunnerBasics")]},
     "C08": {"harnesses": [("harness.ophistory", "C08_OpHistory")]},
